@@ -285,6 +285,14 @@ class M(Model):
             out.append(("is_requested flags differ from the new request queue", f"queue {q2.tolist()}"))
         return out
 
+    # ---------------------------------------------------------------------------- solver ('solve' plans)
+    def solve_action(self, s, r=0):
+        """Joint action of the courier policy (see `courier_actions`): walk to a requested shelf, load it,
+        carry it along the aisles to a goal cell, carry it back to a free shelf location, unload.  The policy
+        is stateless; `r` only breaks symmetries (which way an agent turns when it has nothing to do), so that
+        the targets stay stable while the plan draws a new r for every step."""
+        return courier_actions(self, s, r=int(r) % 2, stable=True)
+
     # ------------------------------------------------------------------------------------ C07
     def invariants(self, prev, a, s, ts):
         out = []
@@ -515,7 +523,9 @@ def _bfs_next(m, start, targets, blocked):
     return None
 
 
-def courier_actions(m, s, r=0):
+def courier_actions(m, s, r=0, stable=False):
+    """`stable`: idle agents (k >= number of open requests) wait and every agent fetches the request that
+    is nearest to it instead of the r-th one."""
     pos, d, carry = m._agents(s)
     spos = m._shelves(s)
     smap = m._shelf_map(spos)
@@ -531,7 +541,11 @@ def courier_actions(m, s, r=0):
             if not wanted:
                 acts[k] = LEFT
                 continue
-            tgt = {tuple(spos[wanted[(k + r) % len(wanted)]].tolist())}
+            if stable:
+                wanted = sorted(wanted, key=lambda q: (abs(int(spos[q][0]) - here[0]) + abs(int(spos[q][1]) - here[1]), q))
+                tgt = {tuple(spos[wanted[0]].tolist())}
+            else:
+                tgt = {tuple(spos[wanted[(k + r) % len(wanted)]].tolist())}
             if here in tgt:
                 acts[k] = TOGGLE
                 continue
